@@ -637,6 +637,150 @@ theorem readMeta_error_of_plain_error (fr : Framer) (mhls : Nat) (orc : HpackOra
   unfold readMeta
   simp only [h]
 
+/-! ### Fuel sufficiency and completeness -/
+
+
+/-- The fuel of `metaLoop` is only a termination device: any two values above the number of
+remaining bytes give the same result (each CONTINUATION consumes at least 9 bytes), so the
+out-of-fuel branch is unreachable from `readMeta`, which starts with `rest.length + 1`. -/
+theorem metaLoop_fuel (f1 f2 : Nat) (fr : Framer) (st : MetaState) (frag : List Nat) (ended : Bool)
+    (decs : List FragDec) (bs : List Nat) (h1 : bs.length < f1) (h2 : bs.length < f2) :
+    metaLoop f1 fr st frag ended decs bs = metaLoop f2 fr st frag ended decs bs := by
+  induction f1 generalizing f2 fr st frag ended decs bs with
+  | zero => omega
+  | succ n ih =>
+    cases f2 with
+    | zero => omega
+    | succ m =>
+      simp only [metaLoop]
+      split
+      · rfl
+      split
+      · rfl
+      generalize metaWrite st (decs.headD {}) = w
+      obtain ⟨st1, werr⟩ := w
+      simp only
+      split
+      · rfl
+      split
+      · rfl
+      split
+      · rfl
+      · rename_i h frag' hres
+        have hs := (readFrame_ok_shape fr bs _ hres).2.2.1
+        exact ih _ _ _ _ _ _ _ (by omega) (by omega)
+      · rfl
+
+
+/-- as long as neither `invalid` nor `Truncated` is set, emission is enabled and `Fields` is
+everything the decoder has emitted so far (`E`). -/
+def Complete (E : List Field) (st : MetaState) : Prop :=
+  st.truncated = false → st.invalid = false → st.enabled = true ∧ st.fields = E
+
+theorem metaEmit_complete (E : List Field) (st : MetaState) (f : Field) (h : Complete E st) :
+    Complete (E ++ [f]) (metaEmit st f) := by
+  unfold metaEmit
+  cases he : st.enabled with
+  | false =>
+    simp only [Bool.not_false, ↓reduceIte]
+    intro ht hi
+    have := (h ht hi).1
+    rw [he] at this; cases this
+  | true =>
+    by_cases hi : metaInvalid st f = true
+    · simp only [hi, Bool.not_true, Bool.false_eq_true, ↓reduceIte]
+      intro _ hinv; simp at hinv
+    by_cases hsz : f.size > st.remainSize
+    · simp only [hi, hsz, Bool.not_true, Bool.false_eq_true, ↓reduceIte]
+      intro ht; simp at ht
+    simp only [hi, hsz, Bool.not_true, Bool.false_eq_true, ↓reduceIte]
+    intro ht hinv
+    simp only at ht hinv
+    exact ⟨rfl, by rw [(h ht hinv).2]⟩
+
+theorem foldl_complete (fs E : List Field) (st : MetaState) (h : Complete E st) :
+    Complete (E ++ fs) (fs.foldl metaEmit st) := by
+  induction fs generalizing E st with
+  | nil => simpa using h
+  | cons f rest ih =>
+    have := ih (E ++ [f]) (metaEmit st f) (metaEmit_complete E st f h)
+    simpa [List.append_assoc] using this
+
+theorem metaLoop_complete (fuel : Nat) (fr : Framer) (st : MetaState) (frag : List Nat) (ended : Bool)
+    (decs : List FragDec) (bs : List Nat) (st' : MetaState) (fr' : Framer) (rest' : List Nat) (E : List Field)
+    (h : Complete E st)
+    (hr : metaLoop fuel fr st frag ended decs bs = (.ok st', fr', rest')) :
+    ∃ n, 1 ≤ n ∧ Complete (E ++ (decs.take n).flatMap (·.fields)) st' := by
+  induction fuel generalizing fr st frag ended decs bs E with
+  | zero => simp [metaLoop] at hr
+  | succ k ih =>
+    unfold metaLoop at hr
+    split at hr
+    · cases hr
+    split at hr
+    · cases hr
+    generalize hmw : metaWrite st (decs.headD {}) = w at hr
+    obtain ⟨st1, werr⟩ := w
+    have hst1 : Complete (E ++ (decs.headD {}).fields) st1 := by
+      have : st1 = (decs.headD {}).fields.foldl metaEmit st := by
+        simp only [metaWrite, Prod.mk.injEq] at hmw; exact hmw.1.symm
+      rw [this]; exact foldl_complete _ E st h
+    have hhead : (decs.headD {}).fields = (decs.take 1).flatMap (·.fields) := by
+      cases decs <;> simp
+    simp only at hr
+    cases werr with
+    | true => simp at hr
+    | false =>
+      simp only [Bool.false_eq_true, ↓reduceIte] at hr
+      cases ended with
+      | true =>
+        simp only [↓reduceIte, Prod.mk.injEq, Except.ok.injEq] at hr
+        refine ⟨1, Nat.le_refl 1, ?_⟩
+        rw [← hr.1, ← hhead]; exact hst1
+      | false =>
+        simp only [Bool.false_eq_true, ↓reduceIte] at hr
+        split at hr
+        · simp at hr
+        · obtain ⟨n, hn, hc⟩ := ih _ _ _ _ _ _ _ hst1 hr
+          refine ⟨n + 1, by omega, ?_⟩
+          have : (decs.take (n + 1)).flatMap (·.fields) = (decs.headD {}).fields ++ (decs.tail.take n).flatMap (·.fields) := by
+            cases decs <;> simp
+          rw [this, ← List.append_assoc]; exact hc
+        · simp at hr
+
+/-- A MetaHeadersFrame that is NOT marked Truncated carries the complete decoded header list: its
+`Fields` are exactly the fields the HPACK decoder produced for the (first `n ≥ 1`) fragments of
+the header block, none dropped. Together with `readMeta_guarantees` this is "within
+MaxHeaderListSize unless marked Truncated". -/
+theorem readMeta_complete (fr : Framer) (mhls : Nat) (orc : HpackOracle) (bs : List Nat)
+    (h : FrameHeader) (prio : PriorityParam) (fields : List Field)
+    (hres : (readMeta fr mhls orc bs).res = .ok (.metaHeaders h prio fields false)) :
+    ∃ n, 1 ≤ n ∧ fields = (orc.decs.take n).flatMap (·.fields) := by
+  unfold readMeta at hres
+  simp only at hres
+  split at hres
+  · cases hres
+  · split at hres
+    · cases hres
+    · rename_i st fr' rest' hloop
+      split at hres
+      · cases hres
+      split at hres
+      · cases hres
+      rename_i hinv
+      split at hres
+      · cases hres
+      simp only [MetaReadResult.mk.injEq, Except.ok.injEq, MFrame.metaHeaders.injEq] at hres
+      obtain ⟨_, _, hfields, htr⟩ := hres
+      have h0 : Complete [] { remainSize := maxHeaderListSize mhls } := by
+        intro _ _; exact ⟨rfl, rfl⟩
+      obtain ⟨n, hn, hc⟩ := metaLoop_complete _ _ _ _ _ _ _ _ _ _ [] h0 hloop
+      refine ⟨n, hn, ?_⟩
+      rw [← hfields]
+      simpa using (hc htr (by simpa using hinv)).2
+  · cases hres
+
+
 /-! ### Non-vacuity -/
 
 /-- a HEADERS frame (stream 1, END_HEADERS) whose block decodes to `:method: GET`, `a: b`. -/
